@@ -162,7 +162,7 @@ def collect_events(rep: Report, tier: str, wd, pool: Pool, gen_cases, extra_sour
     return files
 
 
-def validate(rep: Report, files, module="Trace_Decode"):
+def validate(rep: Report, files, module="Trace_Decode", expect_delta=1):
     fails = []
 
     def one(f):
@@ -178,8 +178,8 @@ def validate(rep: Report, files, module="Trace_Decode"):
             rep.cov["traces_validated_against_impl"] += n
             rep.cov["states"] += r.distinct
             rep.cov["transitions"] += r.generated
-            if not r.ok or r.distinct != n + 1:
-                rep.machinery_error(f"{module} {f}: rc={r.rc} distinct={r.distinct} expected={n + 1} {r.errors[:2]} "
+            if not r.ok or r.distinct != n + expect_delta:
+                rep.machinery_error(f"{module} {f}: rc={r.rc} distinct={r.distinct} expected={n + expect_delta} {r.errors[:2]} "
                                     f"{r.violated[:2]} :: {r.out[-600:]}")
             for s in tlc_prints(r.out):
                 fails.append(json.loads(tla_unescape(s)))
